@@ -21,6 +21,17 @@ TECH = "Lean 4 theorems over a hand-written executable model; tie = decision exp
 NOT_APPLICABLE = {}
 
 PROPS = {
+    "C14": dict(
+        level="proof", engines=[eng("cfg", 20000, 1000000)], labels=["C14"],
+        text="Theorems (Props/C14.lean, 49 lemmas): the manager invariant PoolOK (one node object per ID) is preserved by every constructor, also when it fails; every created "
+             "configuration lists pooled objects once, strictly sorted by ID (CfgOK) and is non-empty; And is the union, Except/WithoutNodes the difference (empty difference = error), "
+             "WithNodeIDs exactly the named registered nodes or an error; a node list yields one node per distinct address carrying that address, an address whose generated ID is "
+             "pooled under another address fails (the FNV-1a collision 10.0.1.16:5319 / 10.0.2.47:8124 is a kernel-checked fact); a node map realises every (address, id) pair or fails. "
+             "Tie: digests of the 25 constructor / accessor functions (config_opts.go, config.go, mgr.go, node.go, dev/mgr.go, dev/config.go) regenerated on every run; "
+             "exact differential run of operation sequences (raw API and generated dev.Manager) against the Lean model, with every live configuration re-dumped after every operation.",
+        note="Trusted: Lean kernel; net.ResolveTCPAddr is the identity on canonical ip:port literals; pointer identity is modelled by a uid; sort.Sort on distinct IDs; "
+             "the hand-written constructor model (tied by digests and by the exact T3 run).",
+    ),
     "C13": dict(
         level="proof", engines=[eng("codec", 30000, 2000000)], labels=["C13"],
         text="Theorems (Props/C13.lean): LEB128 varint round trip for every 64-bit value and continuation; frame round trip for all byte strings; a non-negative "
